@@ -59,7 +59,7 @@ def classify(step):
         if not isinstance(step.exc, RecursionError):
             raise Violation("not-untouched", "model predicts unbounded rollback recursion, real raised %s: %s" % (type(step.exc).__name__, ctx))
         return {"KF-C03-4"}
-    same_exc = type(mexc) is type(step.exc) and (not isinstance(mexc, mut.Veto) or (mexc.kind, mexc.label, mexc.count) == (step.exc.kind, step.exc.label, step.exc.count))
+    same_exc = (type(mexc) is type(step.exc) or (isinstance(mexc, mut.Veto) and isinstance(step.exc, mut.Veto))) and (not isinstance(mexc, mut.Veto) or (mexc.kind, mexc.label, mexc.count) == (step.exc.kind, step.exc.label, step.exc.count))
     if not same_exc or model.state() != step.post:
         raise Violation("not-untouched", "forest changed by a refused call in a way that is not one of the listed findings: %s (step model: %s, %s)" % (ctx, type(mexc).__name__, model.state()))
     ids = {KF[f] for f in model.flags}
@@ -123,6 +123,14 @@ def check_locked(case, acc):
 
 
 def check_case(case, acc):
+    if case.get("repr_boom"):
+        # the same case with node classes whose repr()/str() cannot be evaluated: nothing between a veto and the
+        # rollback may need them
+        mut.REPR_BOOM[0] = True
+        try:
+            return check_case(dict(case, repr_boom=False), acc)
+        finally:
+            mut.REPR_BOOM[0] = False
     if case.get("kind") == "locked":
         return check_locked(case, acc)
     if case.get("kind") == "deep":
@@ -131,6 +139,8 @@ def check_case(case, acc):
     stats = {"inscope": 0, "after_hook": 0, "steal": 0, "deviations": 0}
 
     def per_step(step, rec, universe):
+        if mut.REPR_BOOM[0] and step.raised and not isinstance(step.exc, (mut.Veto, RecursionError)):
+            raise Violation("not-untouched", "%s plan=%s on %s: the hook's veto was replaced by %s (the library evaluated repr()/str() of a node before rolling back); forest afterwards %s" % (step.op, step.plan, step.pre, type(step.exc).__name__, step.post))
         if not in_scope(step, family):
             return
         stats["inscope"] += 1
@@ -178,6 +188,10 @@ def _no_bad_for_lm(cases, family):
         if family == "LM" and not mut.op_is_plain(op) and not (op[0] == "children" and isinstance(op[2], dict)) and op[0] != "parent":
             continue  # non-node children are only specified for NodeMixin-based classes
         yield case
+        plan = case["steps"][0].get("plan") or {}
+        if plan and mut.op_is_plain(op) and mut.spec(case["state"], op, family)[0] == "ok":
+            # a legal call vetoed by a hook: the library has no reason to format a message, so an unreprable class changes nothing
+            yield dict(case, repr_boom=True)
 
 
 def run_task(task, acc):
